@@ -110,9 +110,8 @@ def judge(ctx, st, obs, case):
     ok = 1000 * fee >= 100000 + 1000 * size + 100 * gas
     model_same = (fee, gas, size) == (m['fee'], m['gas'], m['forged'] + m['sig'])
     limits_same = (list(m['fees']), list(m['gases']), list(m['storages']), list(m['counters'])) == (obs['fees'], obs['gases'], obs['storages'], obs['counters'])
-    if not obs['decoded_ok']:
-        ctx.mismatch('C24:payload-not-a-manager-operation', 'the signed bytes do not decode to the filled contents: %s' % obs.get('decode_error'), case)
-        return
+    if not obs['decoded_ok']:     # the measured bytes are not what the filled group says: the size cannot be trusted (machinery, not a verdict)
+        raise RuntimeError('signed bytes do not decode to the filled contents (%s): %s' % (obs.get('decode_error'), case))
     if ok:
         if not (model_same and limits_same):
             ctx.extra['as_coded_model_differs_where_property_holds'] = ctx.extra.get('as_coded_model_differs_where_property_holds', 0) + 1
